@@ -372,6 +372,67 @@ fn check_ram_start(ctx: &Ctx, dev: &str, prefix: &str, include_dir: Option<&Path
     }
 }
 
+/// Usages far beyond any capacity whose low 32 (or 16) bits look like a legal usage: a size that is
+/// narrowed before it is compared passes exactly these. All must fail.
+fn wrapped_usages(ctx: &Ctx) {
+    use crate::monitor::worker::{self, Case as WCase, Verdict};
+    let table = devices::table();
+    let mut devs: Vec<(Option<String>, Device)> = vec![(None, Device::new(0))];
+    for (n, d) in table.iter().step_by(5) {
+        devs.push((Some(n.clone()), d.clone()));
+    }
+    // these builds run in isolated worker processes with a heap cap and a step budget: code that lets
+    // such a size through goes on to reserve it, which must not take the monitor down with it
+    let mut cases: Vec<WCase> = vec![];
+    let mut meta: Vec<(String, &'static str, &'static str, u64, u64)> = vec![];
+    for (name, dev) in &devs {
+        let prefix = name.as_ref().map(|n| format!(".device {}\n", n)).unwrap_or_default();
+        for base in [1u64 << 32, 1u64 << 33, 1u64 << 40, 1u64 << 16, 1u64 << 31] {
+            for k in [0u64, 1, 8] {
+                let n = base + k;
+                let list = [
+                    ("ram", "byte", format!(".dseg\nbuf: .byte {}\n", n), dev.ram_size as u64),
+                    ("ram", "org+byte", format!(".dseg\n.org {}\n.byte 1\n", n + dev.ram_start as u64), dev.ram_size as u64),
+                    ("eeprom", "byte", format!(".eseg\n.byte {}\n", n), dev.eeprom_size as u64),
+                    ("eeprom", "org+db", format!(".eseg\n.org {}\n.db 1\n", n), dev.eeprom_size as u64),
+                    ("flash", "org+nop", format!(".org {}\nnop\n", n), dev.flash_size as u64),
+                ];
+                for (mem, method, body, cap) in list {
+                    if n <= cap {
+                        continue;
+                    }
+                    let dname = name.clone().unwrap_or_else(|| "none".into());
+                    ctx.distinct(fw::hash_str(&format!("wrap|{}|{}|{}|{}", dname, mem, method, n)));
+                    cases.push(WCase { kind: b'S', text: format!("{}{}", prefix, body).into_bytes(), construct: format!("{}/{}", dname, mem), family: "wrapped" });
+                    meta.push((dname, mem, method, n, cap));
+                }
+            }
+        }
+    }
+    worker::supervise(&cases, fw::threads(), 0, &[], |idx, v| {
+        let (dname, mem, method, n, cap) = &meta[idx];
+        ctx.eval(1);
+        ctx.count("wrapped_usage_cases", 1);
+        let src = String::from_utf8_lossy(&cases[idx].text).to_string();
+        let how = match v {
+            Verdict::Done { kind, .. } if kind == "err" => return,
+            Verdict::Done { kind, .. } => format!("build returned {}", kind),
+            Verdict::Hang { steps } => format!("not rejected: ran into the step budget ({} steps)", steps),
+            Verdict::Memory { live } => format!("not rejected: went on to allocate {} MiB", live >> 20),
+            Verdict::Crash { how, .. } => format!("not rejected: worker died ({})", how),
+            Verdict::Inconclusive(w) => {
+                ctx.inconclusive(format!("wrapped usage case: {}", w));
+                return;
+            }
+        };
+        ctx.violation(
+            format!("cap/table/{}/{}/wrapped-size-accepted", dname, mem),
+            format!("{}: {} usage {} (capacity {}) via {}: {}", dname, mem, n, cap, method, how),
+            json!({"source": src, "device": dname, "memory": mem, "method": method, "usage": n, "capacity": cap, "wrapped": true}),
+        );
+    });
+}
+
 fn misc_device_cases(ctx: &Ctx) {
     let cases: Vec<(&str, String, bool)> = vec![
         ("unknown", ".device ATnothing99\nnop\n".to_string(), false),
@@ -447,6 +508,7 @@ pub fn run(ctx: &Ctx) -> i32 {
         }
     }
     misc_device_cases(ctx);
+    wrapped_usages(ctx);
     if ctx.tier == Tier::Thorough {
         // extra: random usages strictly inside / far outside, all methods, all devices
         let mut rng = Rng::for_case(ctx.seed, 0xC12, 7);
@@ -479,7 +541,7 @@ pub fn run(ctx: &Ctx) -> i32 {
     let _ = std::fs::remove_dir_all(scratch_dir());
     fw::finish(
         ctx,
-        "every device of DEVICES and the no-device default x {flash, EEPROM, RAM} x usage {capacity-1, capacity, capacity+1} x fill methods (.org + one item, .org + two-word instruction straddling the limit, data runs of mixed widths, instruction runs, .byte reservations, .org in dseg/eseg, interleaved data segments); every shipped includes/*def.inc whose device is in the table built through build_file with capacities taken from its #pragma AVRPART MEMORY lines; RAM start via data-segment labels; unknown and repeated .device; distinct_nontrivial = distinct (device, capacity source, memory, method, usage-capacity) tuples",
+        "every device of DEVICES and the no-device default x {flash, EEPROM, RAM} x usage {capacity-1, capacity, capacity+1} x fill methods (.org + one item, .org + two-word instruction straddling the limit, data runs of mixed widths, instruction runs, .byte reservations, .org in dseg/eseg, interleaved data segments); every shipped includes/*def.inc whose device is in the table built through build_file with capacities taken from its #pragma AVRPART MEMORY lines; RAM start via data-segment labels; unknown and repeated .device; usages of 2^16/2^31/2^32/2^33/2^40 (+0,1,8) units in every memory, which must fail although their low bits look legal; distinct_nontrivial = distinct (device, capacity source, memory, method, usage-capacity) tuples",
         &[
             "for table rows without a shipped part file and for the defaults only enforced == reported == table row can be checked",
             "PROG_FLASH in the part files is in bytes (two per flash word)",
@@ -503,6 +565,10 @@ pub fn replay(ctx: &Ctx, case: &Value) -> i32 {
             check(ctx, c);
             n += 1;
         }
+    }
+    if n == 0 && case["wrapped"].as_bool() == Some(true) {
+        wrapped_usages(ctx);
+        n = 1;
     }
     if n == 0 {
         if case["ram_start"].is_u64() || case["misc"].is_string() {
